@@ -137,7 +137,9 @@ def refute(c, goal, kmax=3, timeout_ms=10000, hints=()):
     can build, e.g. equal ids rather than a string-hash collision) are preferred"""
     goal = to_bterm(goal)
     for extra in ([list(hints)] if hints else []) + [[]]:
-        for k in range(0, kmax + 1):
+        # non-empty child lists first: the constructors document "propositions list cannot be empty", so a counter-model
+        # with no child at all is the least informative one (kept as a last resort: the proofs themselves hold for n >= 0)
+        for k in list(range(1, kmax + 1)) + [0]:
             fs = unrolled(c, k, [z3.Not(goal)] + extra)
             r, s, dt = _solve(fs, timeout_ms)
             if r == z3.sat:
